@@ -45,6 +45,13 @@
 (*  "session-import-module-not-started"  a module imported by a Jupyter CELL is loaded while *)
 (*        the session's auto-start is switched off for the cell: its functions are delayed  *)
 (*        and nobody starts them (until an unrelated pyscript.reload starts every context)   *)
+(*  "service-bookkeeping-keyed-by-spelling"  counts and owners are kept per SPELLING of a     *)
+(*        service name while HA folds names: two live declarations that spell one name        *)
+(*        differently ("pyscript.s1" / "pyscript.S1") do not share a count - removing one     *)
+(*        unregisters the service the other still declares, and a second context takes the    *)
+(*        name over.  (d.alt = the declaration spells its names the other way; the intended   *)
+(*        rule does not look at it; what the code does from such a collision on is not        *)
+(*        modelled: the acceptor judges the recording up to that step, see LifecycleTrace)    *)
 (*                                                                                          *)
 (* Rush: a structural action may be followed by the next one before quiescence (quiet =     *)
 (* FALSE; hot = generations whose start is still in progress).  INTENDED: the result is the *)
@@ -73,9 +80,9 @@ Ents(d) == { EntOf(n) : n \in d.st }
 NoOwner == "-"
 AllFlags == {"legacy-stop-before-first-run-leaks", "service-handler-not-repointed", "notify-del-returns-early", "dm-delayed-start-ignores-drop",
              "dm-start-order-arbitrary", "dm-service-owner-is-evaluator-name", "dm-service-multi-arg-rejected",
-             "session-import-module-not-started"}
+             "session-import-module-not-started", "service-bookkeeping-keyed-by-spelling"}
 
-Dc(st, ev, tt, svc, resp, sf) == [st |-> st, ev |-> ev, tt |-> tt, svc |-> svc, resp |-> resp, sf |-> sf]
+Dc(st, ev, tt, svc, resp, sf) == [st |-> st, ev |-> ev, tt |-> tt, svc |-> svc, resp |-> resp, sf |-> sf, alt |-> FALSE]
 \* the declarations; a configuration selects some by index (constant DeclSet)
 DeclList == <<
   Dc({}, {}, {}, {"s1"}, "none", "stack"),                                        \*  1 service
@@ -96,11 +103,13 @@ DeclList == <<
   Dc({"b", "c"}, {"e2"}, {"startup"}, {}, "none", "stack"),                       \* 16
   Dc({}, {}, {}, {"S3"}, "none", "stack"),                                        \* 17 a name with an upper-case letter
   Dc({}, {"e2"}, {}, {"s1", "S3"}, "optional", "stack"),                          \* 18
-  Dc({"a"}, {"e1"}, {"startup"}, {"s2", "S3"}, "none", "args") >>                 \* 19
+  Dc({"a"}, {"e1"}, {"startup"}, {"s2", "S3"}, "none", "args"),                   \* 19
+  [Dc({}, {}, {}, {"s1"}, "none", "stack") EXCEPT !.alt = TRUE],                  \* 20 "pyscript.S1": the same name as in 1
+  [Dc({}, {"e1"}, {}, {"s2", "S3"}, "optional", "stack") EXCEPT !.alt = TRUE] >>  \* 21 "pyscript.S2", "pyscript.s3"
 AllDecls == 1..Len(DeclList)
 \* declarations outside the loci of the known deviations (one name per entity; several names as arguments of one
 \* @service are no longer masked: repaired in the code)
-MaskedDecls == { i \in AllDecls : Cardinality(Ents(DeclList[i])) = Cardinality(DeclList[i].st) }
+MaskedDecls == { i \in AllDecls : Cardinality(Ents(DeclList[i])) = Cardinality(DeclList[i].st) /\ ~DeclList[i].alt }
 Decls == { DeclList[i] : i \in DeclSet }
 Data == {"-", "p=1", "p=2,q=x"}
 \* Outgoing service calls from scripts (service.call(domain, name, **kw) and domain.name(**kw)).  A keyword is
@@ -320,6 +329,10 @@ ExecGen(c, d, via) == IF CellDelays(c) /\ via = "exec" THEN [NewGen(c, d, via) E
 ExecStart(c, via) == IF CellDelays(c) /\ via = "exec" THEN {c} ELSE {}
 \* cross-context conflicts are generated only for declarations with ONE service (what happens to the other
 \* decorators of a refused function is not specified and differs between the subsystems)
+\* a declaration that spells a name differently from a declaration of that name which holds registrations now
+SpellingCollision(d) == \E h \in Gen : HoldsTables(G[h].s) /\ G[h].d.svc \cap d.svc # {} /\ G[h].d.alt # d.alt
+SpellingCollisionIn(defs) == \/ \E i \in 1..Len(defs) : SpellingCollision(defs[i].d)
+                             \/ \E i, j \in 1..Len(defs) : defs[i].d.svc \cap defs[j].d.svc # {} /\ defs[i].d.alt # defs[j].d.alt
 OwnedElsewhere(c, s) == own[s] \notin {NoOwner, c, c \o "!run"}
 ConflictOK(c, d) == (\E s \in d.svc : OwnedElsewhere(c, s)) => Cardinality(d.svc) = 1
 ExecOK(c) == started /\ c \in loaded
@@ -619,11 +632,14 @@ W_NoRefusal == ~\E g \in Gen : G[g].s = "inert"
 W_NoUnloadAfterActivity == ~(unloaded /\ \E g \in Gen : G[g].s = "dead")
 W_NoShutdownRun == ~\E g \in Gen : G[g].sd > 0
 W_NoClosureHeld == ~\E c \in Ctx : cont[c].L # <<>> /\ cont[c].D # 0
-\* a module's function made active by an import executed inside a running function / a session cell, and one
-\* that outlives the reload of its importer
-W_NoModuleOutlivesImporter == ~(imp = {} /\ \E g, h \in Gen : g < h /\ G[g].c = Module /\ G[g].s = "live" /\ G[g].su = 1 /\ G[h].c # Module)
+\* the parts added in round 3 are reachable (one witness per driver: every TLC run costs a JVM start).
+\* a module's function made active by an import executed inside a running function, which outlives the reload of
+\* its importer
+ModuleOutlivesImporter == imp = {} /\ \E g, h \in Gen : g < h /\ G[g].c = Module /\ G[g].s = "live" /\ G[g].su = 1 /\ G[h].c # Module
 \* a load that failed after a definition with a service, and a context left unloaded by it
-W_NoFailedLoad == ~(\E c \in Ctx : c \notin loaded /\ ~unloaded /\ \E g \in Gen : G[g].c = c /\ G[g].s = "dropped" /\ G[g].d.svc # {})
+FailedLoad == \E c \in Ctx : c \notin loaded /\ ~unloaded /\ \E g \in Gen : G[g].c = c /\ G[g].s = "dropped" /\ G[g].d.svc # {}
 \* a service whose spelling has an upper-case letter: redefined (the old declaration ended, a new one lives)
-W_NoMixedCaseRedeclared == ~\E g, h \in Gen : g < h /\ "S3" \in G[g].d.svc \cap G[h].d.svc /\ G[g].s = "dead" /\ G[h].s = "live"
+MixedCaseRedeclared == \E g, h \in Gen : g < h /\ "S3" \in G[g].d.svc \cap G[h].d.svc /\ G[g].s = "dead" /\ G[h].s = "live"
+W_NoModuleOutlivesImporterNorFailedLoad == ~(ModuleOutlivesImporter /\ FailedLoad)
+W_NoMixedCaseRedeclaredNorFailedLoad == ~(MixedCaseRedeclared /\ FailedLoad)
 =============================================================================
